@@ -17,7 +17,7 @@ import time
 VERIF = os.path.dirname(os.path.abspath(__file__))
 REPO = os.environ.get("VERIF_REPO", "/repo")
 HARNESS = os.path.join(VERIF, "harness")
-CACHE = os.path.join(VERIF, ".cache")
+CACHE = os.environ.get("VERIF_CACHE", os.path.join(VERIF, ".cache"))  # scratch runs (seeded changes on a copy of the repo) use their own
 GOSYM = os.path.join(VERIF, "bin", "gosym")
 GOENV = dict(os.environ, GOFLAGS="-mod=mod", GOPROXY="off", GOSUMDB="off", GOTOOLCHAIN="local")
 MODULE = "github.com/jackalLabs/canine-chain/v4"
@@ -203,7 +203,7 @@ def main():
     t0 = time.time()
     ensure_engine()
     known, _fixed = load_known()
-    evdir = os.path.join(VERIF, "evidence")
+    evdir = os.environ.get("VERIF_EVIDENCE", os.path.join(VERIF, "evidence"))
     os.makedirs(os.path.join(evdir, "replay"), exist_ok=True)
 
     results = []
@@ -308,6 +308,7 @@ def main():
     # translator validation: the witness of each cover point (a model of the symbolic run) is executed
     # natively; the real code must reach the same cover point with no failed assertion
     conf_ok = conf_bad = 0
+    violated_ids = {o["ID"] for r in results for o in r.get("obligations", []) if o["Verdict"] == "violated"}
     conf_limit = spec.get("conformance_limit", 8 if tier == "quick" else 40)
     if spec.get("conformance") is False:
         conf_limit = 0  # witnesses depend on hash values (A-HASH abstraction): not replayable natively
@@ -318,7 +319,9 @@ def main():
             sc = dict(sc, pkg=r["pkg"])
             path = os.path.join(evdir, "replay", "%s-cover-%s.json" % (prop, re.sub(r"[^A-Za-z0-9_.-]", "_", cid)))
             rr = replay(r["pkg"], sc, path, extra)
-            if cid in (rr.get("covers") or []) and not rr.get("failed_asserts") and not rr.get("panic"):
+            # assertions the symbolic run itself reports as violated may of course fail natively as well
+            stray = [a for a in (rr.get("failed_asserts") or []) if a not in violated_ids]
+            if cid in (rr.get("covers") or []) and not stray and not rr.get("panic"):
                 conf_ok += 1
             else:
                 conf_bad += 1
